@@ -313,6 +313,68 @@ func main() {
 			var clauses []string
 			for _, st := range sw.Body.List {
 				cc := st.(*ast.CaseClause)
+				// what the clause stores as the message's value, by the static type of the expression
+				// assigned to .value (robust against renamed locals, helpers and merged/split clauses):
+				// 0 bool, 4 State, 5 string, 6/7 []string split at " " / "," (parseList's literal), 8 int, 1 nothing
+				kind := 1
+				listSep := ""
+				var rhs ast.Expr
+				for _, b := range cc.Body {
+					ast.Inspect(b, func(n ast.Node) bool {
+						switch x := n.(type) {
+						case *ast.AssignStmt:
+							for k, l := range x.Lhs {
+								if se, ok := l.(*ast.SelectorExpr); ok && se.Sel.Name == "value" && k < len(x.Rhs) {
+									rhs = x.Rhs[k]
+								}
+							}
+						case *ast.CallExpr:
+							if id, ok := x.Fun.(*ast.Ident); ok && id.Name == "parseList" && len(x.Args) == 2 {
+								if bl, ok := x.Args[1].(*ast.BasicLit); ok {
+									listSep = bl.Value
+								}
+							}
+						}
+						return true
+					})
+				}
+				if rhs != nil {
+					tv, ok := pi.info.Types[rhs]
+					if !ok || tv.Type == nil {
+						errs = append(errs, it.pkgDir+": "+it.goName+": cannot type the value stored by a clause")
+					} else {
+						switch t := tv.Type.(type) {
+						case *types.Named:
+							if t.Obj().Name() == "State" {
+								kind = 4
+							} else {
+								errs = append(errs, it.pkgDir+": "+it.goName+": value of unexpected type "+t.String())
+							}
+						case *types.Slice:
+							switch listSep {
+							case `" "`:
+								kind = 6
+							case `","`:
+								kind = 7
+							default:
+								errs = append(errs, it.pkgDir+": "+it.goName+": list value without a recognised parseList separator")
+							}
+						case *types.Basic:
+							switch {
+							case t.Info()&types.IsBoolean != 0:
+								kind = 0
+							case t.Info()&types.IsString != 0:
+								kind = 5
+							case t.Info()&types.IsInteger != 0:
+								kind = 8
+							default:
+								errs = append(errs, it.pkgDir+": "+it.goName+": value of unexpected basic type "+t.String())
+							}
+						default:
+							errs = append(errs, it.pkgDir+": "+it.goName+": value of unexpected type "+tv.Type.String())
+						}
+					}
+				}
 				var names []string
 				for _, e := range cc.List {
 					tv, ok := pi.info.Types[e]
@@ -322,9 +384,9 @@ func main() {
 					}
 					names = append(names, strBytes(constant.StringVal(tv.Value)))
 				}
-				clauses = append(clauses, "["+strings.Join(names, ";\n     ")+"]")
+				clauses = append(clauses, fmt.Sprintf("(%d, [%s])", kind, strings.Join(names, ";\n     ")))
 			}
-			fmt.Fprintf(&b, "Definition %s : list (list (list N)) :=\n  [%s].\n", it.coq, strings.Join(clauses, ";\n   "))
+			fmt.Fprintf(&b, "Definition %s : list (N * list (list N)) :=\n  [%s].\n", it.coq, strings.Join(clauses, ";\n   "))
 		case "structlayout":
 			// offset and size (encoding/binary, no padding) of every named field of a struct of
 			// fixed-size fields, and the total size
